@@ -194,11 +194,27 @@ class Child:
             str(m) for m in ms))
 
 
+class ColPerm:
+    """a permutation of the columns that is not the identity (e.g. the
+    stable argsort of a tiled arange: blocks become interleaved)"""
+    skv_isarray = True
+
+    def __init__(self, what):
+        self.what = what
+
+
 class ChildList:
     skv_isarray = True
 
-    def __init__(self, children):
+    def __init__(self, children, permuted=None):
         self.children = children
+        self.permuted = permuted
+
+    def skv_getitem(self, ix):
+        if isinstance(ix, tuple) and len(ix) == 2 and ix[0] == slice(None) \
+                and isinstance(ix[1], ColPerm):
+            return ChildList(self.children, ix[1].what)
+        raise Unsupported(f"index {ix!r} into the new connectivity")
 
 
 class PointBlock:
